@@ -3,6 +3,7 @@ Require Import Base.Bytes Base.GoInt Base.Reply Mem.Types Mem.Strings Mem.Lists.
 Require Import Mem.Hashes.
 Require Import Mem.Avl Mem.ZSets.
 Require Import Mem.Streams.
+Require Import Mem.Sets.
 Local Open Scope Z_scope.
 
 (* A command family: given the (already purged) database, the clock in s and ms, the
@@ -57,7 +58,7 @@ Definition lists_dispatch : family := fun d now nowms n args hint =>
   else if is n (B "brpop") then Some (exec_bpop false d nowms args)
   else None.
 
-Definition families : list family := [strings_dispatch; lists_dispatch; hashes_dispatch; zsets_dispatch; streams_dispatch].
+Definition families : list family := [strings_dispatch; lists_dispatch; hashes_dispatch; sets_dispatch; zsets_dispatch; streams_dispatch].
 
 Fixpoint dispatch (fs : list family) (d : db) (now nowms : Z) (n : bytes) (args : list bytes)
          (hint : reply) : reply * db :=
